@@ -256,7 +256,7 @@ def write_replay(pid, sig, example, tier, seed, history_unit=None):
     if history_unit is not None:
         # the outcome of this case depends on what the process did before it: the replay re-executes the work unit it belongs
         # to from its start (a deterministic operation sequence), in a fresh interpreter, up to and including this case
-        body["history_unit"] = {"index": history_unit, "tier": tier, "seed": seed}
+        body["history_unit"] = dict(history_unit, tier=tier, seed=seed)
     digest = "%016x" % h64(json.dumps([sig, example["case"]], sort_keys=True))
     path = os.path.join(d, "%s.json" % digest)
     with open(path, "w") as f:
@@ -277,27 +277,31 @@ def replay_in_fresh_process(pid, path, timeout=600):
     raise RuntimeError("replay produced no result (exit %s): %s %s" % (p.returncode, p.stdout[-2000:], p.stderr[-2000:]))
 
 
-def first_example_of_unit(check, index, tier, seed, sig, case=None):
-    """Runs ONE work unit from its start in this (fresh) process and returns its first unknown violation example with
-    signature `sig` (the one for `case` if given), or None."""
+def first_example_of_unit(check, index, tier, seed, sig, case=None, prefix=False):
+    """Runs ONE work unit from its start in this (fresh) process - with prefix=True: the work units 0..index one after the other,
+    in their fixed order - and returns the first unknown violation example with signature `sig` (the one for `case` if given),
+    or None."""
     bind_repo()
     units = check.units(tier, seed)
-    acc = Acc(check.ID, known_for(check))
-    acc.unit_index = index
-    check.run_unit(units[index], acc)
-    b = acc.buckets.get((sig, None))
-    if not b:
-        return None
-    for e in b["examples"]:
-        if case is None or e["case"] == case:
-            return e
+    known = known_for(check)
+    for i in (range(index + 1) if prefix else [index]):
+        acc = Acc(check.ID, known)
+        acc.unit_index = i
+        check.run_unit(units[i], acc)
+        b = acc.buckets.get((sig, None))
+        if not b:
+            continue
+        for e in b["examples"]:
+            if case is None or e["case"] == case:
+                return e
     return None
 
 
-def unit_replay_in_fresh_process(pid, index, tier, seed, sig, timeout=3600):
+def unit_replay_in_fresh_process(pid, index, tier, seed, sig, timeout=3600, prefix=False):
     env = dict(os.environ)
     env.update({"PYTHONDONTWRITEBYTECODE": "1", "PYTHONUTF8": "1", "VERIF_SEED": str(seed)})
-    p = subprocess.run([sys.executable, "-m", "mc.run", pid, "--tier", tier, "--replay-unit", "%d" % index, "--sig", sig],
+    p = subprocess.run([sys.executable, "-m", "mc.run", pid, "--tier", tier, "--replay-unit", "%d" % index, "--sig", sig]
+                       + (["--prefix"] if prefix else []),
                        cwd=VERIF, env=env, stdout=subprocess.PIPE, stderr=subprocess.PIPE,
                        timeout=timeout, universal_newlines=True)
     for line in reversed(p.stdout.splitlines()):
@@ -312,7 +316,7 @@ def do_replay(check, path, as_json=False):
         body = json.load(f)
     if body.get("history_unit"):
         hu = body["history_unit"]
-        ex = first_example_of_unit(check, hu["index"], hu["tier"], hu["seed"], body["signature"], body["case"])
+        ex = first_example_of_unit(check, hu["index"], hu["tier"], hu["seed"], body["signature"], body["case"], hu.get("prefix", False))
         observed = ex["observed"] if ex else {"not_violated_in_this_run": True}
     else:
         observed = jsonable(check.replay(body["case"]))
@@ -408,6 +412,7 @@ def main(argv=None):
     ap.add_argument("--json", action="store_true")
     ap.add_argument("--replay-unit", type=int, default=None)
     ap.add_argument("--sig", default=None)
+    ap.add_argument("--prefix", action="store_true")
     ap.add_argument("--procs", type=int, default=None)
     args = ap.parse_args(argv)
 
@@ -423,7 +428,7 @@ def main(argv=None):
     if args.replay:
         return do_replay(check, args.replay, as_json=args.json)
     if args.replay_unit is not None:
-        ex = first_example_of_unit(check, args.replay_unit, tier, seed, args.sig)
+        ex = first_example_of_unit(check, args.replay_unit, tier, seed, args.sig, prefix=args.prefix)
         print("UNIT-REPLAY-RESULT " + json.dumps(ex, sort_keys=True))
         return 0
 
@@ -484,18 +489,26 @@ def main(argv=None):
             # before.  Re-execute the whole work unit (a fixed operation sequence) from its start in two fresh interpreters: if
             # both runs report the same first violation of this kind, the dependence on earlier calls is deterministic and is
             # the library's (every case builds fresh objects) - a violation that needs a history, not a flaky harness.
-            try:
-                u1 = unit_replay_in_fresh_process(check.ID, ex["unit_index"], tier, seed, sig)
-                u2 = unit_replay_in_fresh_process(check.ID, ex["unit_index"], tier, seed, sig)
-            except Exception as exc:
-                u1 = u2 = None
-                print("HARNESS ERROR in %s: unit replay failed: %s" % (check.ID, exc))
-            if u1 is not None and u1 == u2:
-                path = write_replay(check.ID, sig, u1, tier, seed, history_unit=ex["unit_index"])
+            u1 = None
+            for prefix in (False, True):
+                # (first the unit alone; if the state it needs was left behind by EARLIER units of the same worker process, the
+                # units 0..index one after the other in their fixed order - still one deterministic operation sequence)
+                try:
+                    u1 = unit_replay_in_fresh_process(check.ID, ex["unit_index"], tier, seed, sig, prefix=prefix)
+                    u2 = unit_replay_in_fresh_process(check.ID, ex["unit_index"], tier, seed, sig, prefix=prefix) if u1 is not None else None
+                except Exception as exc:
+                    u1 = u2 = None
+                    print("HARNESS ERROR in %s: unit replay failed: %s" % (check.ID, exc))
+                    break
+                if u1 is not None and u1 == u2:
+                    break
+                u1 = None
+            if u1 is not None:
+                path = write_replay(check.ID, sig, u1, tier, seed, history_unit={"index": u1.get("unit_index", ex["unit_index"]), "prefix": prefix})
                 print("  [%s] %d instance(s); first: %s" % (sig, b["count"], u1["msg"][:600]))
                 print("  (needs a history: alone in a fresh interpreter this case gives %s; the violation appears when the calls "
-                      "of work unit #%d that precede it have run in the same process - reproduced identically in two fresh "
-                      "interpreters)" % (json.dumps(r1["observed"])[:200], ex["unit_index"]))
+                      "of work unit%s #%d that precede it have run in the same process - reproduced identically in two fresh "
+                      "interpreters)" % (json.dumps(r1["observed"])[:200], "s #0 to" if prefix else "", u1.get("unit_index", ex["unit_index"])))
                 print("VIOLATION property=%s replay=%s" % (check.ID, path))
                 confirmed = True
                 continue
